@@ -174,6 +174,17 @@ def discharge1(axioms, obl, seed=0, want_model=True, cross=False, quick_only=Fal
         res['reason'] = 'quick attempt'
         return res
     if r == z3.unknown:
+        # seed portfolio (round 4): a query that is answered in 0.1 s on most runs and times out
+        # on a few is unstable in the instantiation order, not hard -- a few short attempts with
+        # other random seeds (and the quantifier-instantiation order they imply) before giving up.
+        # Only `unsat` is taken from these attempts, so this can discharge, never refute.
+        for alt in (7, 31, 113, 257, 509):
+            sa = mk_solver(axioms, obl.pc, obl.goal, (seed or 0) + alt, timeout=4000,
+                           fuel=res.get('fuel', FUELS[0]))
+            sa.set('smt.random_seed', ((seed or 0) + alt) % 1000)
+            if sa.check() == z3.unsat:
+                res.update(status='discharged', time=round(time.time() - t0, 4), portfolio=alt)
+                return res
         try:
             r2, dt2 = run_cvc5(s.to_smt2(), int(CVC5_TIMEOUT_MS * load_scale()))
         except Exception:
